@@ -288,7 +288,21 @@ func isZeroContent(v reflect.Value) bool {
 
 var sliceLen = 2
 
+// cycle runs one Populate / Put / Get cycle twice: the node goes back by its own Put function, and by the generic
+// release that walks a tree (PutExpression for expression nodes, ReleaseAST for statements) - the route ReleaseAST takes.
 func cycle(e poolEntry, field, size string) {
+	cycleVia(e, field, size, "typed")
+	probe := e.Get()
+	_, isExpr := probe.(ast.Expression)
+	_, isStmt := probe.(ast.Statement)
+	reflect.ValueOf(probe).Elem().Set(reflect.Zero(reflect.ValueOf(probe).Elem().Type()))
+	e.Put(probe)
+	if isExpr || isStmt {
+		cycleVia(e, field, size, "generic")
+	}
+}
+
+func cycleVia(e poolEntry, field, size, route string) {
 	sliceLen = map[string]int{"few": 2, "many": 100, "huge": 1500}[size]
 	defer func() { sliceLen = 2 }()
 	// drain: make sure the pool hands us the node we put
@@ -313,8 +327,19 @@ func cycle(e poolEntry, field, size string) {
 		e.Put(obj)
 		return
 	}
-	run.Nontrivial(e.Type + "." + field + "." + size)
-	e.Put(obj)
+	run.Nontrivial(e.Type + "." + field + "." + size + "." + route)
+	if route == "generic" {
+		switch n := obj.(type) {
+		case ast.Expression:
+			ast.PutExpression(n)
+		case ast.Statement:
+			tree := ast.NewAST()
+			tree.Statements = append(tree.Statements, n)
+			ast.ReleaseAST(tree)
+		}
+	} else {
+		e.Put(obj)
+	}
 	got := e.Get()
 	same := got == obj
 	gv := reflect.ValueOf(got).Elem()
@@ -329,8 +354,12 @@ func cycle(e poolEntry, field, size string) {
 		run.Sample(map[string]any{"kind": "cycle", "type": e.Type, "field": field, "same_object_returned": same})
 	}
 	for _, d := range dirty {
-		run.Violate(core.Violation{Sig: "pooled-node-dirty|" + e.Type + "." + d, Clause: "a node obtained from the pools is indistinguishable from a freshly constructed one",
-			Case: map[string]any{"kind": "cycle", "type": e.Type, "populated": targets, "size": size}, Observe: firstN(fmt.Sprintf("%v", gv.FieldByName(d).Interface()), 300)})
+		sig := "pooled-node-dirty|" + e.Type + "." + d
+		if route == "generic" {
+			sig += "|generic-release"
+		}
+		run.Violate(core.Violation{Sig: sig, Clause: "a node obtained from the pools is indistinguishable from a freshly constructed one",
+			Case: map[string]any{"kind": "cycle", "type": e.Type, "populated": targets, "size": size, "released_through": route}, Observe: firstN(fmt.Sprintf("%v", gv.FieldByName(d).Interface()), 300)})
 	}
 	// hand back a clean node so that later cycles start from a clean pool
 	gv.Set(reflect.Zero(gv.Type()))
@@ -353,7 +382,8 @@ var kindSQL = map[string][]string{
 		"SELECT x.a, (SELECT MAX(b) FROM w) FROM t, (SELECT a FROM s WHERE a IN (SELECT b FROM w)) x JOIN u ON u.a = x.a",
 		"SELECT a FROM (SELECT a FROM s) x JOIN (SELECT b FROM w) y ON x.a = y.b UNION SELECT c FROM (SELECT c FROM v) z"},
 	"insert": {"INSERT INTO t (a, b) VALUES (1, 'x'), (2, 'y')", "UPDATE t SET a = 1, b = a + 2 WHERE c = 3"},
-	"tuple":  {"SELECT a FROM t WHERE (a, b) IN ((1, 2), (3, 4))", "SELECT ARRAY[1, 2, 3], (x, y) FROM t"},
+	"tuple": {"SELECT a FROM t WHERE (a, b) IN ((1, 2), (3, 4))", "SELECT ARRAY[1, 2, 3], (x, y) FROM t",
+		"SELECT readings[bounds[1]:bounds[2]], grid[1][2], ARRAY[a[1], b[2:3]] FROM t WHERE ((a, b), c) IN (((1, 2), 3))"},
 }
 var failSQL = map[string]string{"select": "SELECT a FROM t WHERE (a, b) IN ((1, 2), (3, ", "insert": "INSERT INTO t (a) VALUES (1, (2, 3", "tuple": "SELECT ARRAY[1, (2, 3), FROM"}
 
